@@ -379,6 +379,37 @@ func searchC19() {
 			}
 		}
 	}
+	// the YEAR field of the three Chinese renderings, for EVERY lunar year of the range (first day of the first month): a rendering
+	// slip that depends on the value of the year (digit count, a particular digit, a power of ten of the shifted Taoist / Buddhist
+	// year) is confined to one year that the day sweep above reaches only by chance
+	for ly := 1 + shardI; ly <= 9998; ly += shardN {
+		ly := ly
+		in := fmt.Sprintf("lunar %d-1-1", ly)
+		var l *calendar.Lunar
+		chk("lunar-newyear", in, func() (bool, string, string) {
+			l = calendar.NewLunarFromYmd(ly, 1, 1)
+			return l.GetYear() == ly && l.GetMonth() == 1 && l.GetDay() == 1, fmt.Sprintf("%d,%d,%d", l.GetYear(), l.GetMonth(), l.GetDay()), "the numbers given"
+		})
+		if l == nil {
+			continue
+		}
+		chk("year-field-all-years", in, func() (bool, string, string) {
+			for _, r := range []struct {
+				kind string
+				str  string
+				y    int
+			}{{"lunar", l.String(), ly}, {"tao", l.GetTao().String(), ly + 2697}, {"foto", l.GetFoto().String(), ly + 544}} {
+				py, pm, pd, ok, why := c19ParseChinese(r.str)
+				if !ok {
+					return false, r.kind + " " + r.str + " (" + why + ")", fmt.Sprintf("reads back as %d,1,1", r.y)
+				}
+				if py != r.y || pm != 1 || pd != 1 {
+					return false, fmt.Sprintf("%s %s reads as %d,%d,%d", r.kind, r.str, py, pm, pd), fmt.Sprintf("reads back as %d,1,1", r.y)
+				}
+			}
+			return true, "", ""
+		})
+	}
 	// civil year 9999 (formatting only: the property covers 1..9999, the lunar tables stop earlier) and the
 	// width boundaries of the year field
 	if shardI == 0 {
